@@ -3,6 +3,7 @@ import OxyModel.Props.C19
 #print axioms C19.C19_client_ip_general
 #print axioms C19.C19_same_token_iff_same_address
 #print axioms C19.C19_host
+#print axioms C19.C19_host_ignores_url
 #print axioms C19.C19_header
 #print axioms C19.C19_header_value
 #print axioms C19.C19_header_absent
